@@ -342,6 +342,25 @@ func helperRound(w *kit.World, i int) error {
 	}); !errors.Is(verr, errHelperLookup) {
 		return fmt.Errorf("Db.View returned %v for a callback that returned an error", verr)
 	}
+	if i%7 == 3 {
+		// a migration of a component of its own whose second step fails: the whole migration is one transaction, so the
+		// component is afterwards at the version it was at before (0), whoever asks
+		mm := boltz.NewMigratorManager(w.Z.Db)
+		comp := fmt.Sprintf("helper-component-%d", i)
+		merr := mm.Migrate(comp, 2, func(step *boltz.MigrationStep) int {
+			if step.CurrentVersion == 0 {
+				return 1
+			}
+			step.SetError(errHelperLookup)
+			return step.CurrentVersion
+		})
+		if !errors.Is(merr, errHelperLookup) {
+			return fmt.Errorf("a migration whose second step fails returned %v", merr)
+		}
+		if v, verr := mm.GetComponentVersion(comp); verr != nil || v != 0 {
+			return fmt.Errorf("after a migration whose second step failed (and was rolled back) the component is reported at version %d (error %v), want 0", v, verr)
+		}
+	}
 	if i%5 == 0 {
 		// a batched transaction that fails after its first write (beside the writer and other helpers, whose batches
 		// bbolt may merge with it): the caller gets the error and nothing of it is ever visible
@@ -628,6 +647,83 @@ func runC18(c c18Case) kit.Result {
 		abandon = true
 		res.Err = fmt.Errorf("%d read transaction(s) are still open after every reader, helper and the writer have finished\nworkload: %+v", n, c)
 		return res
+	}
+	// a snapshot of the database streams back in (RestoreFromReader) while a reader asks for the version: the reader is
+	// served while the transfer is under way (it does not have to wait for the end of the stream)
+	{
+		var snap bytes.Buffer
+		if err := w.Z.Db.StreamToWriter(&snap); err != nil {
+			res.Err = fmt.Errorf("streaming the database out: %v", err)
+			return res
+		}
+		blocked := false
+		var rerr error
+		func() {
+			defer func() {
+				if p := recover(); p != nil {
+					rerr = fmt.Errorf("RestoreFromReader panicked: %v", p)
+				}
+			}()
+			w.Z.Db.RestoreFromReader(&midStreamReader{data: snap.Bytes(), at: snap.Len() / 2, hook: func() {
+				done := make(chan error, 1)
+				go func() {
+					_, err := readVersion(w, c)
+					done <- err
+				}()
+				select {
+				case err := <-done:
+					if err != nil {
+						rerr = fmt.Errorf("a read made while a snapshot was streaming in: %v", err)
+					}
+				case <-time.After(5 * time.Second):
+					blocked = true
+				}
+			}})
+		}()
+		if rerr != nil {
+			abandon = true
+			res.Err = rerr
+			return res
+		}
+		if blocked {
+			res.Err = fmt.Errorf("a read transaction started while a snapshot was streaming in for RestoreFromReader did not return within 5 s: readers are locked out for the whole transfer")
+			return res
+		}
+		if v, err := readVersion(w, c); err != nil || v != 1+c.WriterTxs {
+			res.Err = fmt.Errorf("after restoring the database from its own snapshot: version %d err %v, want %d", v, err, 1+c.WriterTxs)
+			return res
+		}
+	}
+	// the database has no timeline id yet: four requests at once agree on one id, generated once
+	{
+		var calls atomic.Int32
+		idF := func() (string, error) {
+			n := calls.Add(1)
+			time.Sleep(2 * time.Millisecond)
+			return fmt.Sprintf("timeline-%d", n), nil
+		}
+		ids := make([]string, 4)
+		errs := make([]error, 4)
+		var twg sync.WaitGroup
+		for g := range ids {
+			twg.Add(1)
+			go func(g int) {
+				defer twg.Done()
+				ids[g], errs[g] = w.Z.Db.GetTimelineId(boltz.TimelineModeInitIfEmpty, idF)
+			}(g)
+		}
+		twg.Wait()
+		stored, serr := w.Z.Db.GetTimelineId(boltz.TimelineModeInitIfEmpty, idF)
+		for g := range ids {
+			if errs[g] != nil || ids[g] != stored {
+				res.Err = fmt.Errorf("four GetTimelineId requests at once on a database without a timeline id: answers %q (errors %v), the id function ran %d time(s), the database now holds %q (error %v)", ids, errs, calls.Load(), stored, serr)
+				return res
+			}
+		}
+		if calls.Load() != 1 {
+			res.Err = fmt.Errorf("four GetTimelineId requests at once on a database without a timeline id: the id function ran %d times, want once (answers %q)", calls.Load(), ids)
+			return res
+		}
 	}
 	for r := range versionsSeen {
 		if len(versionsSeen[r]) >= 2 {
